@@ -1,4 +1,6 @@
 import Firefly.Proof.AmlLex
+import Firefly.Proof.AmlNameRt
+import Firefly.Proof.AmlNsSpec
 import Firefly.Model.AmlProg
 import Firefly.Model.AmlNs
 import Firefly.Gen.C11
@@ -15,8 +17,9 @@ The whole-parser statement `parse_encode : parseAML (encode p) = .ok t ∧ nsOf 
 current code for the six program shapes recorded as known findings.  It is decided per generated
 program by the executable specification `AmlProg.namespaceOf` and the differential oracle of
 `./check C11` (`nsOf (tree of the real parser) = namespaceOf program`, plus model = implementation on
-the whole object pool).  What is proved here, for all inputs: the lexical round trip of integer
-constants, and the agreement of the facts this check was built against.
+the whole object pool).  What is proved here, for all inputs: the lexical round trips of integer
+constants, package lengths, name strings and strings (the encodings every declaration is made of), and the
+agreement of the facts this check was built against.
 -/
 namespace Firefly.C11
 open Firefly.AmlLex Firefly.AmlProg Firefly.AmlNs
@@ -75,6 +78,75 @@ theorem pkglen_roundtrip (d : Bytes) (v w base pe : Nat) (hw : 1 ≤ w ∧ w ≤
     rw [show (192 : UInt8) + UInt8.ofNat (v % 16) = UInt8.ofNat (192 + v % 16) by simp [UInt8.ofNat_add]] at h0
     exact pkglen4 d v base pe hv hfit h0 h1 h2 h3
 
+/-- **Name strings round-trip in all four encodings** (`Lex.name_roundtrip`): for every table `d` (shorter than
+2^32), position `base`, package end `pe ≤ len d` and every name — with or without the root prefix `\`, with any number
+of parent prefixes `^`, and with no segment (NullName), one (NameSeg), two (DualNamePath) or 3…255 segments
+(MultiNamePath) of four bytes each (`NameOK`: a lone segment starts with `A`–`Z` or `_`): if the bytes of
+`encNameP n` sit at `base` and end below `pe`, then `parseNameString` succeeds, advances by exactly their number, and
+returns the slice that starts at `base` and covers exactly these bytes (the NullName terminator excluded, as in Go:
+`Scope(\)` yields the one-byte path `\`).  So the path the parser stores for a declaration is the path the program
+wrote, for every name the encoder can produce. -/
+theorem name_roundtrip (d : Bytes) (n : NameP) (base pe : Nat) (hsz : d.size < 4294967296) (hpe : pe ≤ d.size)
+    (hok : NameOK (n.segs.map segBytes))
+    (henc : ∀ i, i < (encNameP n).length → d[base + i]? = (encNameP n)[i]?) (hfit : base + (encNameP n).length ≤ pe) :
+    parseNameString d { offset := base, pkgEnd := pe } =
+      .ok (({ data := some base, len := (encNameP n).length - (if n.segs = [] then 1 else 0) }, PRes.ok),
+        { offset := base + (encNameP n).length, pkgEnd := pe }) := by
+  have := AmlLex.name_roundtrip d n.root n.carets (n.segs.map segBytes) base pe hsz hpe hok henc hfit
+  rw [this]
+  have e : (n.segs.map segBytes = []) ↔ (n.segs = []) := List.map_eq_nil_iff
+  by_cases hq : n.segs = []
+  · rw [if_pos hq, if_pos (e.mpr hq)]; rfl
+  · rw [if_neg hq, if_neg (fun h => hq (e.mp h))]; rfl
+
+/-- non-vacuity: `\_SB_.DEV0.DEV1` (root prefix, MultiNamePath of three segments) and `^^N000` satisfy `NameOK`,
+and the parser reads the first one back from a table that holds it at offset 2 -/
+example : NameOK (({ root := true, segs := ["_SB_", "DEV0", "DEV1"] } : NameP).segs.map segBytes) ∧
+    NameOK (({ carets := 2, segs := ["N000"] } : NameP).segs.map segBytes) :=
+  ⟨⟨by decide, by decide, fun s h => by cases h⟩,
+   ⟨by decide, by decide, fun s h => by cases h; exact ⟨0x4e, rfl, Or.inl ⟨by decide, by decide⟩⟩⟩⟩
+example : parseNameString ((#[0x10, 0x11] ++ (encNameP { root := true, segs := ["_SB_", "DEV0", "DEV1"] }).toArray ++ #[0xff]) : Bytes)
+      { offset := 2, pkgEnd := 17 } = .ok (({ data := some 2, len := 15 }, PRes.ok), { offset := 17, pkgEnd := 17 }) := by
+  decide +kernel
+
+/-- **Strings round-trip** (`Lex.string_roundtrip`): for every table, position and every string of ASCII bytes
+1…0x7f: if the bytes of `encString s` (the string and its zero terminator) sit at `base` and end below `pe`, then
+`parseString` succeeds, consumes them all including the terminator, and returns the slice that starts at `base` and
+has exactly the length of `s` — a `String` constant carries the encoded value. -/
+theorem string_roundtrip (d : Bytes) (s : List UInt8) (base pe : Nat) (hpe : pe ≤ d.size)
+    (hascii : ∀ b ∈ s, 1 ≤ b ∧ b ≤ 0x7f)
+    (henc : ∀ i, i < (encString s).length → d[base + i]? = (encString s)[i]?) (hfit : base + (encString s).length ≤ pe) :
+    parseString d { offset := base, pkgEnd := pe } =
+      .ok (({ data := some base, len := s.length }, PRes.ok), { offset := base + (encString s).length, pkgEnd := pe }) :=
+  AmlLex.string_roundtrip d s base pe hpe hascii henc hfit
+
+/-- **The package end the parser computes is the end of the encoded body** (`Lex.pkg_roundtrip`): `encPkg op w body` is
+`op ++ PkgLength ++ body` with a length that counts its own `w` bytes.  For every table that holds these bytes at
+`base`, every width `1 ≤ w ≤ 4` whose range the length fits: `parsePkgLength`, started behind the opcode, returns a
+length `n` with `start + n` = the offset just behind `body` — the `pkgEnd` that `parsePkgLenArg` pushes
+(`origOffset + pkgLen`) is exactly where the encoder ended the package, and the reader stands at the first body byte. -/
+theorem pkg_roundtrip (d : Bytes) (op body : List UInt8) (w base pe : Nat) (hw : 1 ≤ w ∧ w ≤ 4)
+    (hv : w + body.length < pkgBound w)
+    (henc : ∀ i, i < (encPkg op w body).length → d[base + i]? = (encPkg op w body)[i]?)
+    (hfit : base + op.length + w ≤ pe) :
+    ∃ n, parsePkgLength d { offset := base + op.length, pkgEnd := pe } =
+        .ok ((n, PRes.ok), { offset := base + op.length + w, pkgEnd := pe }) ∧
+      base + op.length + n = base + (encPkg op w body).length := by
+  have hlen : (encPkgLength (w + body.length) w).length = w := by
+    have hcases : w = 1 ∨ w = 2 ∨ w = 3 ∨ w = 4 := by omega
+    rcases hcases with rfl | rfl | rfl | rfl <;> simp [encPkgLength]
+  refine ⟨w + body.length, ?_, ?_⟩
+  · refine pkglen_roundtrip d (w + body.length) w (base + op.length) pe hw hv ?_ hfit
+    intro i hi
+    have := henc (op.length + i) (by unfold encPkg; simp only [List.length_append, hlen]; omega)
+    unfold encPkg at this
+    rw [List.append_assoc, List.getElem?_append_right (by omega), Nat.add_sub_cancel_left,
+      List.getElem?_append_left (by rw [hlen]; exact hi), ← Nat.add_assoc] at this
+    exact this
+  · unfold encPkg
+    simp only [List.length_append, hlen]
+    omega
+
 /-- non-vacuity: the three-byte encoding of 0x12345 -/
 example : parsePkgLength (#[0x85, 0x34, 0x12] : Bytes) { offset := 0, pkgEnd := 3 } =
     .ok ((0x12345, PRes.ok), { offset := 3, pkgEnd := 3 }) := by decide
@@ -93,6 +165,16 @@ example : encode [.device 1 { segs := ["DEV0"] } [.name { segs := ["N000"] } (.i
 example : (namespaceOf [[.scope 1 { segs := ["_SB_"] } [.device 1 { segs := ["DEV0"] }
       [.name { carets := 1, segs := ["N000"] } (.int 1 1)]]]]).objs.contains (["_SB_", "N000"], "name:i1") = true := by
   decide
+
+/-- **The specification's namespace is a tree, for every program** (`Spec.namespace_is_tree`): whatever tables are
+loaded — well-scoped or not — `namespaceOf` never declares a path twice, and every declared path with more than one
+segment has its parent scope declared (ill-scoped declarations are recorded in `errors` and declare nothing).  The
+oracle therefore compares the parser's tree with a well-formed namespace on every input, and "found at the absolute
+path ACPI scoping rules give it" is unambiguous: a path denotes at most one object. -/
+theorem namespace_is_tree (tables : List (List Obj)) :
+    ((namespaceOf tables).objs.map (·.1)).Nodup ∧
+    ∀ p ∈ (namespaceOf tables).objs.map (·.1), 1 < p.length → (namespaceOf tables).has (p.take (p.length - 1)) = true :=
+  AmlProg.namespaceOf_ok tables
 
 /-- **The facts this check was generated against are the facts of C12's model**: the parser model
 (`Model/AmlLex`, `Model/AmlParser`) imports `Gen.C12`; a C11 run regenerates `Gen.C11` from the compiled
